@@ -256,8 +256,18 @@ func readPack(data []byte, d delivery, ch []int) (p *rtp.Packet, consumed int, e
 func oraclePacket(data []byte, cfg int) string {
 	ch := chanConfigs[cfg%len(chanConfigs)]
 	p, consumed, err := readPack(data, dWhole, ch)
-	if (p == nil) == (err == nil) {
-		return fmt.Sprintf("value=%v together with err=%v", p != nil, err)
+	if p == nil && err == nil {
+		return "neither a value nor an error"
+	}
+	if p != nil && err != nil {
+		// Allowed in exactly one situation (ReadPacket's contract since the C07 repair):
+		// the frame was consumed completely but is refused — unknown channel, or an
+		// RTP header that does not parse — so that the session can skip it. The
+		// stream position must be exactly behind the frame; why it may be refused is
+		// judged by the completeness clauses below.
+		if !(len(data) >= 4 && data[0] == '$' && len(data) >= 4+int(binary.BigEndian.Uint16(data[2:4])) && consumed == 4+int(binary.BigEndian.Uint16(data[2:4]))) {
+			return fmt.Sprintf("a packet together with err=%v although the frame was not consumed completely (consumed %d)", err, consumed)
+		}
 	}
 	p2, consumed2, err2 := readPack(data, dByte, ch)
 	if (err == nil) != (err2 == nil) || consumed != consumed2 || (p != nil && p2 != nil && renderPack(p) != renderPack(p2)) {
@@ -334,6 +344,23 @@ func traceReceive(data []byte, d delivery, ch []int, maxItems int) (tr recvTrace
 	for len(tr.renders) < maxItems {
 		res := runReceive(r, ch, 1)
 		if res.err != nil {
+			if errors.Is(res.err, errDelivery) && len(res.order) == 0 {
+				// receive returned nil without delivering anything: allowed for exactly one
+				// completely consumed frame that ReadPacket refuses (unknown channel / RTP
+				// header that does not parse) — the session logs it and reads on (C07 repair)
+				off := cr.pos - r.Buffered()
+				prev := 0
+				if len(tr.offs) > 0 {
+					prev = tr.offs[len(tr.offs)-1]
+				}
+				if m := skippedFrameOK(data[prev:], off-prev, ch); m != "" {
+					tr.err = res.err
+					return tr, m
+				}
+				tr.renders = append(tr.renders, "skipped refused frame")
+				tr.offs = append(tr.offs, off)
+				continue
+			}
 			tr.err = res.err
 			if errors.Is(res.err, errDelivery) {
 				return tr, res.err.Error()
@@ -376,6 +403,37 @@ func traceReceive(data []byte, d delivery, ch []int, maxItems int) (tr recvTrace
 		tr.offs = append(tr.offs, off)
 	}
 	return tr, ""
+}
+
+// skippedFrameOK judges a receive call that returned nil without delivering an
+// item: b must start with one complete '$' frame, exactly that frame must have
+// been consumed, and the frame must be one ReadPacket may refuse — its channel
+// is not configured, or it is on a media channel and its RTP header is not the
+// complete, generic-extension-only header that must be accepted.
+func skippedFrameOK(b []byte, consumed int, ch []int) string {
+	if len(b) < 4 || b[0] != '$' {
+		return "receive returned without an error and without delivering an item"
+	}
+	n := int(binary.BigEndian.Uint16(b[2:4]))
+	if len(b) < 4+n || consumed != 4+n {
+		return fmt.Sprintf("receive skipped a frame of length %d but consumed %d bytes", n, consumed)
+	}
+	idx := -1
+	for i, v := range ch {
+		if v == int(b[1]) {
+			idx = i
+			break
+		}
+	}
+	if idx == 1 || idx == 3 {
+		return fmt.Sprintf("complete frame on control channel %d skipped", b[1])
+	}
+	if idx == 0 || idx == 2 {
+		if h, _, ok := refRTP(b[4 : 4+n]); ok && (!h.X || (h.ExtProfile != 0xBEDE && h.ExtProfile>>4 != 0x100)) {
+			return fmt.Sprintf("complete frame with a complete RTP header on channel %d skipped", b[1])
+		}
+	}
+	return ""
 }
 
 func oracleReceive(data []byte, chunk, cfg int) string {
